@@ -43,6 +43,32 @@ def containers(P, f):
     return L, D
 
 
+def handed_over(P, f):
+    """names of the containers whose GArray pointer is passed to a call (the callee walks the list)"""
+    out = set()
+    for c in f.calls():
+        if (c.callee or "").startswith("llvm."):
+            continue
+        for a in c.args:
+            if a.get("k") != "inst":
+                continue
+            g = f.resolve(rules.strip_casts(f, rules.resolve_local(f, a)))
+            if g is None or g.op != "load":
+                continue
+            if g["ptr"].get("k") == "global":
+                gd = P.globals.get(g["ptr"]["name"]) or {}
+                mem = None
+                for (n, off, size, mt) in (P.di_members(gd.get("ditype", -1)) or []):
+                    if off == (g["ptr"].get("off") or 0):
+                        mem = n
+                out.add(g["ptr"]["name"] + ("." + mem if mem else ""))
+            else:
+                nm = rules.field_path_of_ptr(P, f, g["ptr"])
+                if nm:
+                    out.add(nm)
+    return out
+
+
 def _increments(f):
     out = {}
     for s in f.all_insts():
@@ -172,6 +198,23 @@ def run(chk, P, rid, only, floor):
         L, D = containers(P, f)
         if L and D and "?" not in L and "?" not in D:
             n += 1
+            # a list handed to / walked by a helper counts as walked here (and its length as used)
+            cl, cd = set(), set()
+            seen_ = {f.name}
+            work = [(f, 0)]
+            while work:
+                g_, dp = work.pop()
+                for c_ in g_.calls():
+                    h_ = P.functions.get(c_.callee or "")
+                    if h_ is not None and h_.blocks and h_.name not in seen_ and dp < 2:
+                        seen_.add(h_.name)
+                        l2, d2 = containers(P, h_)
+                        cl |= set(l2)
+                        cd |= set(d2)
+                        work.append((h_, dp + 1))
+            cd |= handed_over(P, f)
+            L = {k: v for k, v in L.items() if k in D or k not in cd}
+            D = {k: v for k, v in D.items() if k in L or k not in cl}
             if set(L) == set(D):
                 chk.ok(rid, 1, {"function": f.name, "containers": sorted(L)} if n % 5 == 0 else None)
             else:
